@@ -110,6 +110,42 @@ theorem walk_spec (st : Start) (n : Nat) (last : Option Nat) (zeros : Nat) (ops 
       simp only [Spec.Counter.run, Spec.Counter.step, rollovers, walk, Bool.and_eq_true, beq_iff_eq]
       exact ⟨by rw [hz], ih n last zeros hz hl⟩
 
+/-- conversely, the predicate pins the run down: with the first value prescribed (`first`), an
+    observation that satisfies it IS the abstract counter's run -/
+theorem walk_unique (st : Start) (n : Nat) (last : Option Nat) (zeros : Nat) (ops : List Op) (obs : List Nat)
+    (hz : zeros = n / 65536)
+    (hl : last = some (n % 65536) ∨ (last = none ∧ ∀ v, firstOk st v = true → v = (n + 1) % 65536))
+    (h : walk st last zeros ops obs = true) : obs = Spec.Counter.run n ops := by
+  induction ops generalizing n last zeros obs with
+  | nil =>
+    cases obs with
+    | nil => rfl
+    | cons v vs => simp [walk] at h
+  | cons op ops ih =>
+    cases obs with
+    | nil => cases op <;> simp [walk] at h
+    | cons v vs =>
+      cases op with
+      | next =>
+        simp only [walk, Bool.and_eq_true, decide_eq_true_eq] at h
+        obtain ⟨⟨hv, hfirst⟩, hrest⟩ := h
+        have hv' : v = (n + 1) % 65536 := by
+          rcases hl with hl | ⟨hl, hf⟩
+          · subst hl; simp only [beq_iff_eq] at hfirst; omega
+          · subst hl; exact hf v hfirst
+        simp only [Spec.Counter.run, Spec.Counter.step, value]
+        rw [← hv']
+        congr 1
+        apply ih (n + 1) (some v) _ vs _ (Or.inl (by rw [hv'])) hrest
+        subst hv'
+        split <;> rename_i h0 <;> simp at h0 <;> omega
+      | roc =>
+        simp only [walk, Bool.and_eq_true, beq_iff_eq] at h
+        simp only [Spec.Counter.run, Spec.Counter.step, rollovers]
+        rw [h.1, hz]
+        congr 1
+        exact ih n last zeros vs hz hl h.2
+
 theorem first_fixed (s : UInt16) : ((SeqState.newFixed s).seq.toNat + 1) % 65536 = s.toNat := by
   have := s.toNat_lt
   simp only [SeqState.newFixed, UInt16.toNat_sub]
